@@ -458,6 +458,8 @@ func ruleIterBoth(c *Check, rStep, rSorted, rCmp string) {
 			r := relOf(L(prevVar), kIt)
 			errRet := p.End == "return" && !retIsNilErr(p) && len(callsOf(p, cbName)) == 0 && len(callsOf(p, "(*lmdb.Cursor).Get")) == 0
 			switch {
+			case errRet && invalidArgumentPath(p):
+				// a defensive refusal of something that is not valid input
 			case errRet:
 				nUnsorted++
 				if lenPrev == EQ || r&LT != 0 {
@@ -907,6 +909,9 @@ func ruleNoOwnRejection(c *Check, rule string, names ...string) {
 					caused = true
 				}
 			}
+			if invalidArgumentPath(p) {
+				caused = true // a nil argument or a key no LMDB can hold is not valid input
+			}
 			last := p.Rets[len(p.Rets)-1]
 			if strings.HasSuffix(last, "ErrNotSorted") {
 				caused = true // order violations are decided by the sorted-check rule
@@ -926,6 +931,24 @@ func ruleNoOwnRejection(c *Check, rule string, names ...string) {
 			c.Ok(rule, name+"/errors-have-cause", fmt.Sprintf("all %d error returns follow a failed iterator or LMDB call (or report unsorted input)", n), c.P.Pos(fn.Pos()))
 		}
 	}
+}
+
+// invalidArgumentPath: the path has established that an argument is nil or that
+// a key or value is longer than LMDB's maximum key size (511): a defensive
+// refusal on such a path rejects nothing that could be valid input.
+func invalidArgumentPath(p *Path) bool {
+	for _, cd := range p.Conds() {
+		a := cd.Atom
+		if a.Kind == "bool" && cd.Truth && strings.HasPrefix(a.A, "isnil(param:") && !strings.Contains(a.A, ".") && !strings.Contains(a.A, "@") {
+			return true
+		}
+		if a.Kind == "cmp" && a.Dom == "int" && strings.HasPrefix(a.A, "len(") {
+			if k, ok := constInt(a.B); ok && k >= 511 && p.State.RelOf("int", a.A, a.B) == GT {
+				return true
+			}
+		}
+	}
+	return false
 }
 
 // eofFlagOf: the loop-carried bool that is tested right after "keyVar == nil"
